@@ -16,6 +16,32 @@ pub use segment::*;
 pub use source_map::*;
 pub use symbols::*;
 
+/// Verification hook (only compiled with `--cfg mos_verif`): lets a test harness observe every
+/// assembly pass and stop the pass loop. Does not exist in normal builds.
+#[cfg(mos_verif)]
+pub mod verif_hook {
+    use std::cell::RefCell;
+
+    /// Called after every pass with (pass index, digest of the state that determines the next pass).
+    /// Return `false` to stop the pass loop.
+    pub type PassObserver = Box<dyn FnMut(usize, u64) -> bool>;
+
+    thread_local! {
+        static OBSERVER: RefCell<Option<PassObserver>> = RefCell::new(None);
+    }
+
+    pub fn set_pass_observer(observer: Option<PassObserver>) {
+        OBSERVER.with(|o| *o.borrow_mut() = observer);
+    }
+
+    pub(super) fn observe(pass_idx: usize, digest: u64) -> bool {
+        OBSERVER.with(|o| match o.borrow_mut().as_mut() {
+            Some(f) => f(pass_idx, digest),
+            None => true,
+        })
+    }
+}
+
 use crate::codegen::config_validator::ConfigValidator;
 use crate::codegen::opcodes::get_opcode_bytes;
 use crate::codegen::source_map::SourceMap;
@@ -1349,6 +1375,66 @@ impl CodegenContext {
     }
 }
 
+#[cfg(mos_verif)]
+fn verif_pass_digest(
+    ctx: &CodegenContext,
+    errors: &Diagnostics,
+    prev_errors: &Diagnostics,
+    prev_undefined: &HashSet<UndefinedSymbol>,
+) -> u64 {
+    use std::collections::hash_map::DefaultHasher;
+    use std::hash::{Hash, Hasher};
+    let mut h = DefaultHasher::new();
+    let mut syms = ctx
+        .symbols
+        .all()
+        .into_iter()
+        .map(|(path, (_, s))| format!("{}|{:?}|{:?}|{:?}", path, s.data, s.ty, s.segment))
+        .collect_vec();
+    syms.sort();
+    syms.hash(&mut h);
+    let undef = |set: &HashSet<UndefinedSymbol>| {
+        let mut v = set
+            .iter()
+            .map(|u| format!("{:?}|{}|{:?}", u.scope_nx, u.id, u.span))
+            .collect_vec();
+        v.sort();
+        v
+    };
+    undef(&ctx.undefined).hash(&mut h);
+    undef(prev_undefined).hash(&mut h);
+    let diags = |d: &Diagnostics| {
+        d.iter()
+            .map(|d| {
+                format!(
+                    "{}|{:?}",
+                    d.message,
+                    d.labels.iter().map(|l| l.file_id).collect_vec()
+                )
+            })
+            .collect_vec()
+    };
+    diags(errors).hash(&mut h);
+    diags(prev_errors).hash(&mut h);
+    for (name, seg) in &ctx.segments {
+        let o = seg.options();
+        format!(
+            "{}|{:?}|{:?}|{}|{:?}",
+            name, o.initial_pc, o.target_address, o.write, o.bank
+        )
+        .hash(&mut h);
+    }
+    format!("{:?}", ctx.current_segment).hash(&mut h);
+    for (name, b) in &ctx.banks {
+        format!(
+            "{}|{:?}|{:?}|{}|{:?}",
+            name, b.size, b.fill, b.create_segment, b.filename
+        )
+        .hash(&mut h);
+    }
+    h.finish()
+}
+
 pub fn codegen(
     ast: Arc<ParseTree>,
     options: CodegenOptions,
@@ -1382,6 +1468,17 @@ pub fn codegen(
             }
         }
         ctx.after_pass().expect("Could not finalize pass");
+
+        #[cfg(mos_verif)]
+        {
+            let digest = verif_pass_digest(&ctx, &errors, &prev_errors, &prev_undefined);
+            if !verif_hook::observe(ctx.pass_idx, digest) {
+                errors.push(
+                    Diagnostic::error().with_message("verification: pass loop stopped by observer"),
+                );
+                return (Some(ctx), errors);
+            }
+        }
 
         // Are there no segments yet? Then create a default one.
         if ctx.segments.is_empty() {
